@@ -34,7 +34,7 @@ pub assume_specification [<OutboundAliasResolverFactoryFn as Clone>::clone] (x: 
 //@struct gneiss-mqtt/src/client/config.rs MqttClientOptions clonespec
 //@struct gneiss-mqtt/src/client/config.rs MqttClientOptionsBuilder
 //@struct gneiss-mqtt-aws/src/lib.rs AwsCustomAuthOptions
-//@struct gneiss-mqtt-aws/src/lib.rs AwsClientBuilder keep=custom_auth_options
+//@struct gneiss-mqtt-aws/src/lib.rs AwsClientBuilder keep=custom_auth_options,connect_options,client_options
 
 impl ConnectOptions {
 //@fn gneiss-mqtt/src/client/config.rs ConnectOptions::builder_from_existing props=C20
@@ -104,13 +104,18 @@ impl MqttClientOptionsBuilder {
             ==> r == options,
 //@end
 
+// String::len() is the UTF-8 byte length: zero exactly for the empty text (assumed specification; std docs of String::len)
+pub open spec fn str_empty(s: Seq<char>) -> bool { s.len() == 0 }
+pub assume_specification [String::len] (s: &String) -> (r: usize) ensures (r == 0) == str_empty(s@);
+
 impl AwsClientBuilder {
 //@fn gneiss-mqtt-aws/src/lib.rs AwsClientBuilder::build_final_connect_options props=C20
     ensures
-        // a non-empty client id always: the user's if supplied, else a fresh one
-        r.client_id is Some,
-        connect_options.client_id matches Some(id) ==> r.client_id->Some_0@ == id@,
-        connect_options.client_id is None ==> r.client_id->Some_0@.len() == 36,
+        // C20: "always connect with a non-empty client id, generating a fresh one when the user supplied none and otherwise keeping the user's"
+        // (an empty string asks the broker to assign an id, exactly like an absent one: was finding F-AWS-EMPTY-CLIENTID)
+        r.client_id matches Some(id) && !str_empty(id@),
+        (connect_options.client_id is Some && !str_empty(connect_options.client_id->Some_0@)) ==> r.client_id->Some_0@ == connect_options.client_id->Some_0@,
+        (connect_options.client_id is None || str_empty(connect_options.client_id->Some_0@)) ==> r.client_id->Some_0@.len() == 36,
         // custom auth replaces username (and password when configured); nothing else of the user's options changes
         self.custom_auth_options matches Some(a) ==> (r.username matches Some(u) && u@ == a.username@)
             && (a.password matches Some(pw) ==> (r.password matches Some(p) && p@ == pw@))
